@@ -550,9 +550,6 @@ impl Predictor {
             .as_ref()
             .expect("this predictor is created with predict_tags = false");
 
-        if self.data.n_tags == 0 {
-            return;
-        }
         let mut scores = vec![];
         let mut range_start = Some(0);
         sentence.n_tags = self.data.n_tags;
@@ -563,6 +560,9 @@ impl Predictor {
         sentence.tag_scores.clear();
         if self.tag_scores {
             sentence.tag_scores.resize(sentence.len(), None);
+        }
+        if self.data.n_tags == 0 {
+            return;
         }
         for (i, &b) in sentence.boundaries.iter().enumerate() {
             if b == CharacterBoundary::Unknown {
